@@ -57,7 +57,7 @@ fn main() {
     // 120 s watchdog fires (>= 60 CPU seconds on it) did not return, which no property about
     // the value or effect of a call can survive. Elsewhere (CLI subprocesses, 2^T-term
     // decompositions, wide tensor contractions, Miri) a watchdog stays inconclusive.
-    if matches!(prop, "C01" | "C02" | "C04" | "C07" | "C09" | "C10" | "C11" | "C13" | "C14" | "C15" | "C16" | "C17" | "C19" | "C20") {
+    if matches!(prop, "C01" | "C02" | "C03" | "C04" | "C07" | "C09" | "C10" | "C11" | "C12" | "C13" | "C14" | "C15" | "C16" | "C17" | "C18" | "C19" | "C20") {
         qvmon::fw::set_hang_is_violation(true);
     }
     monitor();
